@@ -221,6 +221,7 @@ def generate(rng, tier, i):
                         _set(mask, ix, a <= t < b_)
         _fix_mask(rng, mask, msk_shape, p - mask_off, cls in ("single_kept", "mh_single_kept"))
     # ---- module spec
+    alias_kv = False
     if cls == "no_mask" or cls == "saturated" or cls == "rank2":
         multi = rng.random() < 0.4
     if multi:
@@ -237,6 +238,11 @@ def generate(rng, tier, i):
             "d_v": rng.choice([None, rng.randint(1, 3)]), "flags": flags, "dim": p,
         }
         vsize = spec["value_size"]
+        if rng.random() < 0.25:
+            # self-attention style call: the very same tensor object is handed over as key AND value
+            spec["value_size"] = vsize = spec["key_size"]
+            val_b = list(key_b)
+            alias_kv = True
     else:
         dim = p
         if cls == "neg_dim" or (p >= 1 and rng.random() < 0.2):
@@ -254,6 +260,7 @@ def generate(rng, tier, i):
         "class": cls, "spec": spec, "n": n, "pos": p,
         "query_shape": qry_b + [spec["query_size"]], "key_shape": key_b + [spec["key_size"]],
         "value_shape": val_b + [vsize], "mask": mask, "mask_leading_dims_dropped": mask_off, "dtype": dtype,
+        "alias_kv": alias_kv,
         "seed": rng.getrandbits(31),
         "qk_scale": qk_scale, "v_offset": rng.choice([0.0, 0.0, 10.0, 100.0, -50.0]),
         "v_noise": rng.choice([1.0, 1.0, 0.1]), "p_scale": rng.choice([0.5, 1.0]),
@@ -321,6 +328,8 @@ def _materialise(case):
     # same values, hostile memory layout (strides / storage offset), chosen from the case's own numbers
     lay = case.get("layout") or LY.pick(case["seed"], case["n"], case["pos"])
     q, k, v, mask = (LY.relayout(t, lay) for t in (q, k, v, mask))
+    if case.get("alias_kv"):
+        v = k  # one tensor object in both roles
     return mod, q, k, v, mask, g
 
 
